@@ -280,3 +280,771 @@ Proof.
   - unfold ids_below in B. rewrite Forall_forall in B. specialize (B _ H). lia.
   - unfold in_range in R. rewrite Forall_forall in R. specialize (R _ H). simpl in R. lia.
 Qed.
+
+
+(* --- where an id is --------------------------------------------------------------------------------------------------------- *)
+Lemma positions_lt : forall l i k, positions i l -> In k l -> exists j, k = KI j /\ i <= j.
+Proof.
+  induction l; simpl; intros. tauto. destruct H. destruct H0.
+  - subst. exists i; split; auto; lia.
+  - destruct (IHl _ _ H1 H0) as (j & E & L). exists j; split; auto; lia.
+Qed.
+Lemma positions_nodup : forall l i, positions i l -> NoDup l.
+Proof.
+  induction l; simpl; intros. constructor. destruct H. constructor; eauto.
+  intro I. destruct (positions_lt _ _ _ H0 I) as (j & E & L). subst. inv E. lia.
+Qed.
+Lemma class_fields_nodup : forall c, NoDup (class_fields c).
+Proof.
+  intros. unfold class_fields.
+  assert (kx <> ky /\ kx <> kz /\ ky <> kz) as (A & B & C) by (repeat split; discriminate).
+  destruct c as [|[| |]]; repeat constructor; simpl; intuition congruence.
+Qed.
+Lemma keys_ok_nodup : forall k ks, keys_ok k ks -> NoDup ks.
+Proof. destruct k; simpl; intros; subst; eauto using positions_nodup, class_fields_nodup. Qed.
+Lemma assoc_some_in_keys : forall A k (l : list (key * A)) v, assoc k l = Some v -> In k (map fst l).
+Proof.
+  induction l as [|[k1 v1] r]; simpl; intros; try discriminate.
+  destruct (key_eqb k k1) eqn:E; [apply key_eqb_eq in E; auto | eauto].
+Qed.
+
+Definition found_at (i : N) (q : list key) (c : node) : Prop :=
+  exists k pa pt fl its, get_in q c = Some (Node i k pa pt fl its).
+Lemma find_in_items : forall i (its : list (key * node)) p,
+  NoDup (map fst its) ->
+  Forall (fun kv => forall q, find_id i (snd kv) = Some q -> found_at i q (snd kv)) its ->
+  (fix go (l : list (key * node)) : option (list key) :=
+     match l with
+     | [] => None
+     | (k, c) :: r => match find_id i c with Some p => Some (k :: p) | None => go r end
+     end) its = Some p ->
+  exists a q c, p = a :: q /\ assoc a its = Some c /\ found_at i q c.
+Proof.
+  induction its as [|[k0 c] r IH]; intros; [discriminate|].
+  inversion H0 as [|? ? Hh Ht]; subst. simpl in Hh. inv H.
+  destruct (find_id i c) as [q|] eqn:FI.
+  - inv H1. exists k0, q, c. simpl. rewrite key_eqb_refl. auto.
+  - destruct (IH _ H5 Ht H1) as (a & q & c' & E & A & FA). subst.
+    exists a, q, c'. split; auto. split; auto. simpl.
+    destruct (key_eqb a k0) eqn:EK; auto.
+    apply key_eqb_eq in EK; subst a. exfalso. apply H4. eapply assoc_some_in_keys; eauto.
+Qed.
+Lemma find_id_spec : forall i t ep epth p, wf_node ep epth t -> find_id i t = Some p -> found_at i p t.
+Proof.
+  intros i t. induction t as [l|j k pa pt fl its IHits] using node_ind'; simpl; intros; [discriminate|].
+  destruct (N.eqb i j) eqn:E.
+  - inv H0. apply N.eqb_eq in E; subst. unfold found_at. simpl. repeat eexists.
+  - apply wf_node_unfold in H. destruct H as (_ & _ & KO & F).
+    apply keys_ok_nodup in KO.
+    destruct (find_in_items i its p KO) as (a & q & c & E1 & A & FA); auto.
+    + rewrite Forall_forall in *. intros kv I q FI. eapply IHits; eauto.
+    + subst. unfold found_at in *. simpl. rewrite A. auto.
+Qed.
+Lemma locate_from_spec : forall i rs idx ps, Forall wf_slot rs -> locate_from i rs idx = Some ps ->
+  exists t k pa pt fl its, nth_error rs (fst ps - idx) = Some (Live t) /\ (idx <= fst ps)%nat /\
+                           get_in (snd ps) t = Some (Node i k pa pt fl its).
+Proof.
+  induction rs; simpl; intros; [discriminate|]. inv H. destruct a.
+  - destruct (find_id i t) as [p|] eqn:F.
+    + inv H0. simpl. destruct H3 as [_ W]. destruct (find_id_spec _ _ _ _ _ W F) as (k & pa & pt & fl & its & G).
+      exists t, k, pa, pt, fl, its. rewrite Nat.sub_diag. simpl. auto.
+    + destruct (IHrs _ _ H4 H0) as (t' & k & pa & pt & fl & its & NE & L & G).
+      exists t', k, pa, pt, fl, its. repeat split; auto; [|lia].
+      replace (fst ps - idx)%nat with (S (fst ps - S idx)) by lia. auto.
+  - destruct (IHrs _ _ H4 H0) as (t' & k & pa & pt & fl & its & NE & L & G).
+    exists t', k, pa, pt, fl, its. repeat split; auto; [|lia].
+    replace (fst ps - idx)%nat with (S (fst ps - S idx)) by lia. auto.
+Qed.
+Lemma locate_spec : forall st i ps, wfs st -> locate st i = Some ps ->
+  exists k pa pt fl its, get_at st ps = Some (Node i k pa pt fl its).
+Proof.
+  unfold locate; intros. destruct (locate_from_spec _ _ _ _ H H0) as (t & k & pa & pt & fl & its & NE & _ & G).
+  exists k, pa, pt, fl, its. unfold get_at, get_root. rewrite Nat.sub_0_r in NE. rewrite NE. auto.
+Qed.
+
+Lemma get_in_ids : forall p t i k pa pt fl its, get_in p t = Some (Node i k pa pt fl its) -> In i (ids t).
+Proof.
+  induction p; simpl; intros.
+  - inv H. simpl; auto.
+  - destruct t as [l|j kd pa0 pt0 fl0 its0]; simpl in *; [discriminate|].
+    destruct (assoc a its0) as [c|] eqn:A; [|discriminate]. right.
+    destruct (assoc_in _ _ _ _ A) as (k' & _ & I).
+    apply in_flat_map. exists (k', c). split; auto. simpl. eauto.
+Qed.
+Lemma slots_disjoint : forall rs r1 r2 t1 t2 i,
+  NoDup (flat_map ids_slot rs) -> nth_error rs r1 = Some (Live t1) -> nth_error rs r2 = Some (Live t2) ->
+  In i (ids t1) -> In i (ids t2) -> r1 = r2.
+Proof.
+  induction rs; intros; destruct r1, r2; simpl in *; try discriminate; auto.
+  - inv H0. simpl in H. apply nodup_app_inv in H. destruct H as (_ & _ & D). exfalso. eapply D; eauto.
+    apply in_flat_map. exists (Live t2). split; auto. eapply nth_error_In; eauto.
+  - inv H1. simpl in H. apply nodup_app_inv in H. destruct H as (_ & _ & D). exfalso. eapply D; eauto.
+    apply in_flat_map. exists (Live t1). split; auto. eapply nth_error_In; eauto.
+  - f_equal. apply nodup_app_inv in H. destruct H as (_ & H & _). eauto.
+Qed.
+Lemma same_id_same_root : forall st r1 p1 r2 p2 i k1 pa1 pt1 fl1 its1 k2 pa2 pt2 fl2 its2,
+  NoDup (all_ids st) ->
+  get_at st (r1, p1) = Some (Node i k1 pa1 pt1 fl1 its1) -> get_at st (r2, p2) = Some (Node i k2 pa2 pt2 fl2 its2) ->
+  r1 = r2.
+Proof.
+  unfold get_at, get_root; simpl; intros.
+  destruct (nth_error (roots st) r1) as [[t1|]|] eqn:E1; try discriminate.
+  destruct (nth_error (roots st) r2) as [[t2|]|] eqn:E2; try discriminate.
+  eapply slots_disjoint; eauto using get_in_ids.
+Qed.
+
+Lemma positions_assoc : forall (l : list (key * node)) i n k0 old,
+  positions i (map fst l) -> nth_error l n = Some (k0, old) -> assoc (KI (i + Z.of_nat n)) l = Some old.
+Proof.
+  induction l as [|[k1 c] r]; intros; destruct n; simpl in H0; try discriminate; simpl in H; destruct H.
+  - inv H0. simpl. rewrite Z.add_0_r, Z.eqb_refl. auto.
+  - subst k1.
+    replace (i + Z.of_nat (S n)) with ((i + 1) + Z.of_nat n) by (rewrite Nat2Z.inj_succ; lia).
+    simpl. destruct (i + 1 + Z.of_nat n =? i) eqn:E; [lia|]. eapply IHr; eauto.
+Qed.
+Lemma positions_assoc_none : forall (l : list (key * node)) i j,
+  positions i (map fst l) -> (j < i \/ i + zlen l <= j) -> assoc (KI j) l = None.
+Proof.
+  induction l as [|[k1 c] r]; simpl; intros; auto. destruct H. subst. simpl.
+  destruct (j =? i) eqn:E; [unfold zlen in *; simpl in *; lia|].
+  apply IHr with (i := i + 1); auto. unfold zlen in *. simpl length in *. lia.
+Qed.
+
+Lemma inner_has_parent : forall st r p i k pa pt fl its,
+  wfs st -> p <> [] -> get_at st (r, p) = Some (Node i k pa pt fl its) ->
+  exists p' kk cid ck cpa cpt cfl cits,
+    p = p' ++ [kk] /\ get_at st (r, p') = Some (Node cid ck cpa cpt cfl cits) /\ pa = Some cid /\ pt = p.
+Proof.
+  intros. destruct (exists_last H0) as (p' & kk & E). subst p.
+  pose proof H1 as G. unfold get_at in G. simpl in G.
+  destruct (get_root st r) as [t|] eqn:R; [|discriminate].
+  rewrite get_in_app in G. destruct (get_in p' t) as [c|] eqn:GC; [|discriminate].
+  destruct c as [l|cid ck cpa cpt cfl cits]; [simpl in G; discriminate|].
+  assert (GA : get_at st (r, p') = Some (Node cid ck cpa cpt cfl cits)).
+  { unfold get_at. simpl. rewrite R. auto. }
+  destruct (child_reports_container _ _ _ _ _ _ _ _ _ _ _ _ _ _ _ _ H GA H1) as (E1 & E2).
+  exists p', kk, cid, ck, cpa, cpt, cfl, cits. auto.
+Qed.
+
+(* --- formalize: the stored value brings fresh ids, or moves the ids of a root; nothing is duplicated ----------------------- *)
+Definition not_current (its : list (key * node)) (k : key) (rv : rvalue) : Prop :=
+  forall i, rv = RNodeId i -> match assoc k its with Some (Node j _ _ _ _ _) => j <> i | _ => True end.
+
+Ltac trivial_ids :=
+  split; [lia|]; split; [auto|]; exists []; simpl; rewrite ?app_nil_r;
+  split; [apply Permutation_refl|]; split; constructor.
+
+Opaque set_path.
+Lemma formalize_ids : forall q sc st cp ck cid pa pt cfl its k ins rv nw st1,
+  wfs st -> IDS st -> rv_ok rv ->
+  get_at st cp = Some (Node cid ck pa pt cfl its) ->
+  (ins = false -> not_current its k rv) ->
+  formalize q sc st (fst cp) ck cid cfl (pt ++ [k]) ins rv = (nw, st1) ->
+  (next_id st <= next_id st1)%N /\
+  get_root st1 (fst cp) = get_root st (fst cp) /\
+  exists fresh, Permutation (all_ids st1 ++ ids nw) (all_ids st ++ fresh) /\
+                in_range (next_id st) (next_id st1) fresh /\ NoDup fresh.
+Proof.
+  intros q sc st cp ck cid pa pt cfl its k ins rv nw st1 W (ND & BL) OK G NC F.
+  destruct (container_facts _ _ _ _ _ _ _ _ W G) as (Ept & KO & FC).
+  destruct rv; simpl in F.
+  - inv F. trivial_ids.
+  - pose proof (build_ids l (accepts_partial sc cfl) (Some cid) (pt ++ [k]) (next_id st)) as B.
+    destruct (build (accepts_partial sc cfl) (Some cid) (pt ++ [k]) l (next_id st)) as [n nx].
+    inversion F; subst nw st1; clear F.
+    destruct B as (L & R & N). simpl in *. split; auto. split; auto.
+    exists (ids n). repeat split; auto.
+  - destruct (locate st i) as [vpos|] eqn:LO.
+    2:{ inv F. trivial_ids. }
+    destruct (locate_spec _ _ _ W LO) as (vk & vpa & vpt & vfl & vits & GV). rewrite GV in F.
+    destruct (needs_clone (fst cp) ck cid (pt ++ [k]) ins vpos (Node i vk vpa vpt vfl vits)) eqn:NCL.
+    + pose proof (clone_at_ids (q_copy_drops_missing q) false (Node i vk vpa vpt vfl vits) (Some cid) (pt ++ [k]) (next_id st, [])) as C.
+      destruct (clone_at (q_copy_drops_missing q) false (Some cid) (pt ++ [k]) (Node i vk vpa vpt vfl vits) (next_id st, [])) as [c cs].
+      inversion F; subst nw st1; clear F.
+      destruct C as (L & R & N). simpl in *. split; auto. split; auto. exists (ids c). repeat split; auto.
+    + destruct vpos as [rv pv]. simpl in *.
+      destruct pv as [|a pv'].
+      * (* a root is adopted: its slot is emptied *)
+        inversion F; subst nw st1; clear F.
+        destruct (root_reports_no_parent _ _ _ _ _ _ _ _ W GV) as (E1 & E2). subst.
+        unfold needs_clone in NCL. simpl in NCL. rewrite andb_true_r in NCL. apply Nat.eqb_neq in NCL.
+        split; [simpl; lia|]. split; [apply get_root_set_root_other; auto|].
+        exists []. rewrite app_nil_r. split; [|split; constructor].
+        rewrite ids_set_par, ids_set_path.
+        unfold get_at, get_root in GV. simpl in GV.
+        destruct (nth_error (roots st) rv) as [[t|]|] eqn:NE; try discriminate. inv GV.
+        unfold all_ids, set_root. simpl.
+        pose proof (all_ids_set_nth _ _ (Moved i) _ NE) as P1. simpl in P1. perm.
+      * (* an inner node that is not cloned would have to be the element that is being replaced *)
+        exfalso.
+        assert (NE : a :: pv' <> []) by discriminate.
+        destruct (inner_has_parent _ _ _ _ _ _ _ _ _ W NE GV) as (p' & kk & cid' & ck' & cpa' & cpt' & cfl' & cits' & E1 & GP & E2 & E3).
+        subst vpa vpt. unfold needs_clone in NCL. simpl in NCL.
+        destruct ck; try discriminate.
+        -- apply orb_false_iff in NCL. destruct NCL as [N1 N2]. apply negb_false_iff in N1.
+           apply andb_true_iff in N1. destruct N1 as [N1 N3]. apply N.eqb_eq in N1. subst cid'.
+           rewrite N.eqb_refl, andb_true_r in N2. subst ins.
+           apply path_eqb_eq in N3.
+           rewrite E1 in N3. apply app_inj_tail in N3. destruct N3; subst p' kk.
+           assert (rv = fst cp).
+           { destruct cp as [r cp']. simpl in *. subst pt. eapply same_id_same_root; eauto. }
+           subst rv. destruct cp as [r cp']. simpl in *. subst pt. rewrite G in GP. inv GP.
+           specialize (NC eq_refl i eq_refl).
+           rewrite E1 in GV. unfold get_at in GV, G. simpl in *. destruct (get_root st r); [|discriminate].
+           rewrite get_in_app, G in GV. simpl in GV. destruct (assoc k cits') as [c|]; [|discriminate]. inv GV. congruence.
+        -- apply orb_false_iff in NCL. destruct NCL as [N1 N2]. apply negb_false_iff in N1.
+           apply andb_true_iff in N1. destruct N1 as [N1 N3]. apply N.eqb_eq in N1. subst cid'.
+           rewrite N.eqb_refl, andb_true_r in N2. subst ins.
+           apply path_eqb_eq in N3.
+           rewrite E1 in N3. apply app_inj_tail in N3. destruct N3; subst p' kk.
+           assert (rv = fst cp).
+           { destruct cp as [r cp']. simpl in *. subst pt. eapply same_id_same_root; eauto. }
+           subst rv. destruct cp as [r cp']. simpl in *. subst pt. rewrite G in GP. inv GP.
+           specialize (NC eq_refl i eq_refl).
+           rewrite E1 in GV. unfold get_at in GV, G. simpl in *. destruct (get_root st r); [|discriminate].
+           rewrite get_in_app, G in GV. simpl in GV. destruct (assoc k cits') as [c|]; [|discriminate]. inv GV. congruence.
+  - inv F. trivial_ids.
+Qed.
+Transparent set_path.
+
+(* --- the write primitives ------------------------------------------------------------------------------------------------------ *)
+Definition WFI (st : state) : Prop := wfs st /\ IDS st.
+
+Lemma next_update_at : forall st ps f, next_id (update_at st ps f) = next_id st.
+Proof. intros. unfold update_at. destruct (get_root st (fst ps)); auto. Qed.
+Lemma next_add_detached : forall st n, next_id (add_detached st n) = next_id st.
+Proof.
+  intros. destruct n; simpl; auto. destruct (restore_slot _ _ _); auto.
+Qed.
+Lemma next_fix_chain : forall st ps, next_id (fix_chain st ps) = next_id st.
+Proof.
+  intros. unfold fix_chain. generalize (prefixes_desc (snd ps)). intros l. revert st.
+  induction l; simpl; intros; auto. rewrite IHl. apply next_update_at.
+Qed.
+Lemma all_ids_fix_chain : forall st ps, Permutation (all_ids (fix_chain st ps)) (all_ids st).
+Proof.
+  intros. unfold fix_chain. generalize (prefixes_desc (snd ps)). intros l. revert st.
+  induction l; simpl; intros; auto.
+  eapply perm_trans. apply IHl. apply all_ids_update_at_same. apply ids_purge_list.
+Qed.
+Lemma fix_chain_rel : forall st ps, ids_rel st (fix_chain st ps).
+Proof. intros. apply ids_rel_same. apply next_fix_chain. apply all_ids_fix_chain. Qed.
+Lemma fix_chains_rel : forall l st, ids_rel st (fix_chains st l).
+Proof.
+  unfold fix_chains. induction l; simpl; intros. apply ids_rel_refl.
+  eapply ids_rel_trans; [|apply IHl]. destruct (locate st a). apply fix_chain_rel. apply ids_rel_refl.
+Qed.
+Lemma notified_rel : forall sc st ps p, ids_rel st (notified sc st ps p).
+Proof. intros. unfold notified. destruct p; try apply ids_rel_refl. destruct (notify_on sc). apply fix_chain_rel. apply ids_rel_refl. Qed.
+
+Lemma replace_items_ids : forall st st1 cp cid ck pa pt fl its its' nw fresh olds,
+  get_at st cp = Some (Node cid ck pa pt fl its) -> get_root st1 (fst cp) = get_root st (fst cp) ->
+  Permutation (all_ids st1 ++ ids nw) (all_ids st ++ fresh) ->
+  Permutation (ids_items its' ++ olds) (ids_items its ++ ids nw) ->
+  Permutation (all_ids (update_at st1 cp (set_items its')) ++ olds) (all_ids st ++ fresh).
+Proof.
+  intros.
+  assert (G1 : get_at st1 cp = Some (Node cid ck pa pt fl its)) by (unfold get_at in *; rewrite H0; auto).
+  pose proof (all_ids_update_at _ _ (set_items its') _ G1) as P1. simpl in P1.
+  apply perm_cnt; intro x.
+  pose proof (proj1 (perm_cnt _ _) P1 x). pose proof (proj1 (perm_cnt _ _) H1 x). pose proof (proj1 (perm_cnt _ _) H2 x).
+  rewrite ?cnt_app, ?cnt_cons in *. fold (ids_items its) in *. fold (ids_items its') in *. lia.
+Qed.
+Lemma detached_rel : forall st st2 old fresh,
+  (next_id st <= next_id st2)%N -> in_range (next_id st) (next_id st2) fresh -> NoDup fresh ->
+  Permutation (all_ids st2 ++ ids old) (all_ids st ++ fresh) ->
+  ids_rel st (add_detached st2 old).
+Proof.
+  intros. split. rewrite next_add_detached; auto.
+  exists fresh, []. rewrite app_nil_r, next_add_detached. repeat split; auto.
+  eapply perm_trans. apply all_ids_add_detached. auto.
+Qed.
+
+Lemma same_obj_not_current_nth : forall its idx k0 old v,
+  positions 0 (map fst its) -> 0 <= idx -> nth_error its (Z.to_nat idx) = Some (k0, old) -> same_obj old v = false ->
+  not_current its (KI idx) v.
+Proof.
+  intros. intros i E. subst v.
+  rewrite <- (Z2Nat.id idx) by auto. change (KI (Z.of_nat (Z.to_nat idx))) with (KI (0 + Z.of_nat (Z.to_nat idx))).
+  erewrite positions_assoc; eauto. destruct old; auto. simpl in H2. apply N.eqb_neq in H2. auto.
+Qed.
+
+Lemma lprim_ids : forall q sc st cp k rv st' p,
+  WFI st -> rv_ok rv -> lprim q sc st cp k rv = (st', p) -> ids_rel st st'.
+Proof.
+  intros q sc st cp k rv st' p (W & I) OK L. unfold lprim in L.
+  destruct (get_at st cp) as [[|cid ck pa pt cfl its]|] eqn:G; try (inv L; apply ids_rel_refl).
+  destruct ck; try (inv L; apply ids_rel_refl).
+  destruct (container_facts _ _ _ _ _ _ _ _ W G) as (Ept & K & F). simpl in K.
+  destruct k as [s|z]; [inv L; apply ids_rel_refl|].
+  destruct ((z >=? zlen its) && is_missing_rv rv); [inv L; apply ids_rel_refl|].
+  set (n := zlen its) in *.
+  set (idx0 := if z >=? n then n else z) in *.
+  destruct (match rv with RIns v' => (true, v') | _ => (false, rv) end) as [ins v] eqn:IV.
+  assert (OKv : rv_ok v). { destruct rv; inv IV; simpl in *; auto. }
+  set (idx := if idx0 <? 0 then if idx0 >=? - n then idx0 + n else if ins then 0 else idx0 else idx0) in *.
+  destruct ((idx <? n) && negb ins) eqn:C1.
+  - destruct (idx <? 0) eqn:C2; [inv L; apply ids_rel_refl|].
+    destruct (nth_error its (Z.to_nat idx)) as [[k0 old]|] eqn:NE; [|inv L; apply ids_rel_refl].
+    destruct (same_obj old v) eqn:SO; [inv L; apply ids_rel_refl|].
+    destruct (formalize q sc st (fst cp) KList cid cfl (pt ++ [KI idx]) false v) as [nw st1] eqn:FO.
+    assert (NC : false = false -> not_current its (KI idx) v).
+    { intros _. eapply same_obj_not_current_nth; eauto. lia. }
+    destruct (formalize_ids _ _ _ _ _ _ _ _ _ _ _ _ _ _ _ W I OKv G NC FO) as (L1 & R1 & fresh & P1 & RG & NF).
+    inv L. eapply detached_rel; eauto; rewrite ?next_update_at; auto.
+    eapply replace_items_ids; eauto. eapply perm_set_nth; eauto.
+  - destruct (formalize q sc st (fst cp) KList cid cfl (pt ++ [KI idx]) ins v) as [nw st1] eqn:FO.
+    assert (NC : ins = false -> not_current its (KI idx) v).
+    { intros E i _. subst ins. rewrite andb_true_r in C1.
+      rewrite positions_assoc_none with (i := 0); auto. right. unfold n in *. lia. }
+    destruct (formalize_ids _ _ _ _ _ _ _ _ _ _ _ _ _ _ _ W I OKv G NC FO) as (L1 & R1 & fresh & P1 & RG & NF).
+    assert (X : forall its', Permutation (ids_items its') (ids_items its ++ ids nw) ->
+                ids_rel st (update_at st1 cp (set_items its'))).
+    { intros its' PI. split. rewrite next_update_at; auto.
+      exists fresh, []. rewrite next_update_at. repeat split; auto.
+      eapply replace_items_ids; eauto. rewrite app_nil_r; auto. }
+    destruct (idx <? n); inv L; apply X.
+    + rewrite ids_items_renum. apply perm_insert_at.
+    + rewrite ids_items_app. unfold ids_items at 2. simpl. rewrite app_nil_r. auto.
+Qed.
+
+Lemma dprim_ids : forall q sc st cp k rv st' p,
+  WFI st -> rv_ok rv -> dprim q sc st cp k rv = (st', p) -> ids_rel st st'.
+Proof.
+  intros q sc st cp k rv st' p (W & I) OK L. unfold dprim in L.
+  destruct (get_at st cp) as [[|cid ck pa pt cfl its]|] eqn:G; try (inv L; apply ids_rel_refl).
+  destruct ck; try (inv L; apply ids_rel_refl).
+  set (old := match assoc k its with Some o => o | None => Leaf LMissing end) in *.
+  destruct (same_obj old rv) eqn:SO; [inv L; apply ids_rel_refl|].
+  assert (PO : forall its' nw, (match assoc k its with Some _ => Permutation (ids_items its' ++ ids old) (ids_items its ++ ids nw)
+                                                   | None => Permutation (ids_items its') (ids_items its ++ ids nw) end) ->
+               Permutation (ids_items its' ++ ids old) (ids_items its ++ ids nw)).
+  { intros. unfold old in *. destruct (assoc k its); auto. simpl. rewrite app_nil_r. auto. }
+  destruct (is_missing_rv rv).
+  - inv L. eapply detached_rel; try rewrite next_update_at; try lia; try constructor.
+    apply (replace_items_ids st st cp cid KDict pa pt cfl its (remove_assoc k its) (Leaf LNone) [] (ids old) G eq_refl).
+    + simpl. auto.
+    + apply PO. destruct (assoc k its) eqn:A.
+      * simpl. rewrite app_nil_r. apply perm_remove_assoc; auto.
+      * simpl. rewrite app_nil_r, remove_assoc_none; auto.
+  - destruct (formalize q sc st (fst cp) KDict cid cfl (pt ++ [k]) false rv) as [nw st1] eqn:FO.
+    assert (NC : false = false -> not_current its k rv).
+    { intros _ i E. subst rv. unfold old in SO. destruct (assoc k its) as [[|j]|]; auto. simpl in SO.
+      apply N.eqb_neq in SO; auto. }
+    destruct (formalize_ids _ _ _ _ _ _ _ _ _ _ _ _ _ _ _ W I OK G NC FO) as (L1 & R1 & fresh & P1 & RG & NF).
+    inv L. eapply detached_rel; eauto; rewrite ?next_update_at; auto.
+    eapply replace_items_ids; eauto. apply PO. destruct (assoc k its) eqn:A.
+    + apply perm_set_assoc_some; auto.
+    + rewrite set_assoc_none; auto. rewrite ids_items_app. unfold ids_items at 2. simpl. rewrite app_nil_r. auto.
+Qed.
+
+Lemma oprim_ids : forall q sc st cp k rv st' p,
+  WFI st -> rv_ok rv -> oprim q sc st cp k rv = (st', p) -> ids_rel st st'.
+Proof.
+  intros q sc st cp k rv st' p (W & I) OK L. unfold oprim in L.
+  destruct (get_at st cp) as [[|cid ck pa pt cfl its]|] eqn:G; try (inv L; apply ids_rel_refl).
+  destruct ck; try (inv L; apply ids_rel_refl).
+  destruct (assoc k its) as [old|] eqn:A; [|destruct (is_missing_rv rv); inv L; apply ids_rel_refl].
+  destruct (same_obj old rv) eqn:SO; [inv L; apply ids_rel_refl|].
+  destruct (is_missing_rv rv).
+  - inv L. eapply detached_rel; try rewrite next_update_at; try lia; try constructor.
+    apply (replace_items_ids st st cp cid (KObj cls) pa pt cfl its (set_assoc k (Leaf LNone) its) (Leaf LNone) [] (ids old) G eq_refl).
+    + simpl. auto.
+    + apply perm_set_assoc_some; auto.
+  - destruct (formalize q sc st (fst cp) (KObj cls) cid cfl (pt ++ [k]) false rv) as [nw st1] eqn:FO.
+    assert (NC : false = false -> not_current its k rv).
+    { intros _ i E. subst rv. rewrite A. destruct old as [|j]; auto. simpl in SO. apply N.eqb_neq in SO; auto. }
+    destruct (formalize_ids _ _ _ _ _ _ _ _ _ _ _ _ _ _ _ W I OK G NC FO) as (L1 & R1 & fresh & P1 & RG & NF).
+    inv L. eapply detached_rel; eauto; rewrite ?next_update_at; auto.
+    eapply replace_items_ids; eauto. apply perm_set_assoc_some; auto.
+Qed.
+
+Lemma prim_ids : forall q sc st cp k rv st' p,
+  WFI st -> rv_ok rv -> prim q sc st cp k rv = (st', p) -> ids_rel st st'.
+Proof.
+  intros. unfold prim in H1.
+  destruct (get_at st cp) as [[|cid ck pa pt cfl its]|]; try (inv H1; apply ids_rel_refl).
+  destruct ck; eauto using lprim_ids, dprim_ids, oprim_ids.
+Qed.
+Lemma WFI_step : forall st st', WFI st -> wfs st' -> ids_rel st st' -> WFI st'.
+Proof. intros st st' (W & I) W' R. split; auto. eapply IDS_step; eauto. Qed.
+
+(* --- the mutators ------------------------------------------------------------------------------------------------------------------ *)
+Lemma items_only_rel : forall st cp cid ck pa pt fl its its',
+  get_at st cp = Some (Node cid ck pa pt fl its) -> Permutation (ids_items its') (ids_items its) ->
+  ids_rel st (update_at st cp (set_items its')).
+Proof.
+  intros. apply ids_rel_same. apply next_update_at.
+  pose proof (replace_items_ids st st cp cid ck pa pt fl its its' (Leaf LNone) [] [] H eq_refl) as X.
+  simpl in X. rewrite !app_nil_r in X. apply X; auto.
+Qed.
+Lemma detach_all_ids : forall its st, Permutation (all_ids (detach_all st its)) (all_ids st ++ ids_items its).
+Proof.
+  unfold detach_all. intros its. induction its as [|[k c] r IH]; simpl; intros.
+  - unfold ids_items. simpl. rewrite app_nil_r. auto.
+  - eapply perm_trans. apply IH. rewrite ids_items_cons.
+    pose proof (all_ids_add_detached st c). perm.
+Qed.
+Lemma next_detach_all : forall its st, next_id (detach_all st its) = next_id st.
+Proof.
+  unfold detach_all. intros its. induction its; simpl; intros; auto. rewrite IHits. apply next_add_detached.
+Qed.
+Lemma clear_core_rel : forall sc st ps tid tk pa pt fl its,
+  get_at st ps = Some (Node tid tk pa pt fl its) -> ids_rel st (clear_core sc st ps its).
+Proof.
+  intros.
+  assert (R : ids_rel st (detach_all (update_at st ps (set_items [])) its)).
+  { apply ids_rel_same. rewrite next_detach_all. apply next_update_at.
+    eapply perm_trans. apply detach_all_ids.
+    pose proof (replace_items_ids st st ps tid tk pa pt fl its [] (Leaf LNone) [] (ids_items its) H eq_refl) as X.
+    simpl in X. rewrite !app_nil_r in X. apply X; auto; unfold ids_items at 1; simpl; auto. }
+  unfold clear_core. destruct its; auto. destruct (notify_on sc); auto.
+  eapply ids_rel_trans; [exact R|apply fix_chain_rel].
+Qed.
+Lemma reorder_core_rel : forall sc st ps tid tk pa pt fl its its' tpth,
+  get_at st ps = Some (Node tid tk pa pt fl its) -> Permutation (ids_items its') (ids_items its) ->
+  ids_rel st (reorder_core sc st ps tpth its its').
+Proof.
+  intros. unfold reorder_core.
+  assert (R : ids_rel st (update_at st ps (set_items (renum tpth its')))).
+  { eapply items_only_rel; eauto. rewrite ids_items_renum. auto. }
+  destruct (negb (all_same its its') && notify_on sc); auto.
+  eapply ids_rel_trans; [exact R|apply fix_chain_rel].
+Qed.
+Lemma ldel_core_rel : forall sc st ps idx st' r tid tk pa pt fl its,
+  get_at st ps = Some (Node tid tk pa pt fl its) -> ldel_core sc st ps idx = (st', r) -> ids_rel st st'.
+Proof.
+  intros sc st ps idx st' r tid tk pa pt fl its G L. unfold ldel_core in L.
+  destruct (cur_items_facts _ _ _ _ _ _ _ _ G) as (E1 & E2 & _). rewrite E1, E2 in L. clear E1 E2.
+  destruct (nth_error its idx) as [[k0 old]|] eqn:NE; [|inv L; apply ids_rel_refl].
+  assert (R : ids_rel st (add_detached (update_at st ps (set_items (renum pt (remove_nth idx its)))) old)).
+  { eapply detached_rel; try rewrite next_update_at; try lia; try constructor.
+    apply (replace_items_ids st st ps tid tk pa pt fl its _ (Leaf LNone) [] (ids old) G eq_refl).
+    - simpl. auto.
+    - simpl. rewrite app_nil_r, ids_items_renum. eapply perm_remove_nth; eauto. }
+  inv L. destruct (notify_on sc); auto. eapply ids_rel_trans; [exact R|apply fix_chain_rel].
+Qed.
+
+Lemma extend_loop_rel : forall q sc rvs st ps upd st' u e,
+  WFI st -> Forall rv_ok rvs -> extend_loop q sc st ps rvs upd = (st', u, e) -> ids_rel st st'.
+Proof.
+  induction rvs; simpl; intros. inv H1; apply ids_rel_refl. inv H0.
+  destruct (lprim q sc st ps (KI (cur_len st ps)) a) as [st1 p] eqn:L.
+  pose proof (lprim_ids _ _ _ _ _ _ _ _ H H4 L) as R1.
+  assert (W1 : WFI st1). { eapply WFI_step; eauto. destruct H. eapply lprim_wfs; eauto. }
+  destruct p; [eapply ids_rel_trans; [exact R1|eapply IHrvs; eauto] | eapply ids_rel_trans; [exact R1|eapply IHrvs; eauto] | inv H1; auto].
+Qed.
+Lemma extend_core_rel : forall q sc rvs st ps st' o,
+  WFI st -> Forall rv_ok rvs -> extend_core q sc st ps rvs = (st', o) -> ids_rel st st'.
+Proof.
+  intros. unfold extend_core in H1.
+  destruct (extend_loop q sc st ps rvs false) as [[st1 u] e] eqn:E.
+  pose proof (extend_loop_rel _ _ _ _ _ _ _ _ _ H H0 E).
+  destruct e; inv H1; auto. destruct (u && notify_on sc); auto.
+  eapply ids_rel_trans; [eauto|apply fix_chain_rel].
+Qed.
+
+Lemma new_list_from_rel : forall q st its c st1,
+  new_list_from q st its = (c, st1) ->
+  ids_rel st (add_root st1 c).
+Proof.
+  intros. unfold new_list_from in H.
+  pose proof (clone_at_ids (q_copy_drops_missing q) false (Node 0%N KList None [] default_flags its) None [] (next_id st, [])) as C.
+  destruct (clone_at _ _ None [] _ _) as [c0 cs]. inv H. destruct C as (L & R & N). simpl in *.
+  split; auto. exists (ids c), []. rewrite app_nil_r. repeat split; auto.
+  rewrite all_ids_add_root. auto.
+Qed.
+Lemma clone_root_rel : forall dm deep st tgt c cs,
+  clone_at dm deep None [] tgt (next_id st, []) = (c, cs) -> ids_rel st (add_root (with_next st (fst cs)) c).
+Proof.
+  intros. pose proof (clone_at_ids dm deep tgt None [] (next_id st, [])) as C. rewrite H in C.
+  destruct C as (L & R & N). simpl in *.
+  split; auto. exists (ids c), []. rewrite app_nil_r. repeat split; auto.
+  rewrite all_ids_add_root. auto.
+Qed.
+
+Lemma rebind_one_rel : forall q sc st tp path rv st' p c,
+  WFI st -> rv_ok rv -> rebind_one q sc st tp path rv = (st', p, c) -> ids_rel st st'.
+Proof.
+  intros. unfold rebind_one in H1.
+  destruct path; [inv H1; apply ids_rel_refl|].
+  destruct (get_at st tp); [|inv H1; apply ids_rel_refl].
+  destruct (query_path n (removelast (k :: path))); [|inv H1; apply ids_rel_refl].
+  destruct (get_at st (fst tp, snd tp ++ l)) as [[|cid ck pa pt cfl its]|]; try (inv H1; apply ids_rel_refl).
+  destruct (treats_as_sealed sc cfl); [inv H1; apply ids_rel_refl|].
+  destruct (prim q sc st (fst tp, snd tp ++ l) (last (k :: path) (KI 0)) rv) as [st1 p1] eqn:P.
+  inv H1. eapply prim_ids; eauto.
+Qed.
+Lemma rebind_loop_rel : forall q sc pvs st tp upd st' u e,
+  WFI st -> Forall (fun kv => rv_ok (snd kv)) pvs -> rebind_loop q sc st tp pvs upd = (st', u, e) -> ids_rel st st'.
+Proof.
+  induction pvs as [|[p rv] r]; simpl; intros. inv H1; apply ids_rel_refl. inv H0.
+  destruct (rebind_one q sc st tp p rv) as [[st1 p1] c] eqn:R.
+  pose proof (rebind_one_rel _ _ _ _ _ _ _ _ _ H H4 R) as R1.
+  assert (W1 : WFI st1). { eapply WFI_step; eauto. destruct H. eapply rebind_one_wfs; eauto. }
+  destruct p1; [destruct c | destruct c | inv H1; auto]; eapply ids_rel_trans; eauto.
+Qed.
+Lemma rebind_core_rel : forall q sc st tp tk pvs nt st' o,
+  WFI st -> Forall (fun kv => rv_ok (snd kv)) pvs -> rebind_core q sc st tp tk pvs nt = (st', o) -> ids_rel st st'.
+Proof.
+  intros. unfold rebind_core in H1.
+  assert (F : Forall (fun kv => rv_ok (snd kv)) (match tk with KList => sort_desc pvs | _ => pvs end)).
+  { destruct tk; auto. apply sort_desc_forall; auto. }
+  destruct (rebind_loop q sc st tp _ []) as [[st1 u] e] eqn:E.
+  pose proof (rebind_loop_rel _ _ _ _ _ _ _ _ _ H F E).
+  destruct e; inv H1; auto. destruct nt; auto.
+  eapply ids_rel_trans; [eauto|apply fix_chains_rel].
+Qed.
+
+Lemma gc_slots_ids : forall base keep rs, exists rest,
+  Permutation (flat_map ids_slot (gc_slots base keep rs) ++ rest) (flat_map ids_slot rs).
+Proof.
+  induction rs; simpl. exists []; auto.
+  destruct IHrs as (rest & P). destruct a.
+  - destruct (negb keep && _).
+    + exists (rest ++ ids t). simpl. perm.
+    + exists rest. simpl. perm.
+  - exists rest. simpl. auto.
+Qed.
+Lemma gc_rel : forall n base keep st, ids_rel st (gc n base keep st).
+Proof.
+  intros. split. simpl; lia.
+  destruct (gc_slots_ids base keep (skipn n (roots st))) as (rest & P).
+  exists [], rest. simpl. repeat split; try constructor.
+  unfold all_ids. simpl. rewrite flat_map_app, app_nil_r.
+  rewrite <- (firstn_skipn n (roots st)) at 3. rewrite flat_map_app. perm.
+Qed.
+
+(* --- every operation ---------------------------------------------------------------------------------------------------------------- *)
+Ltac finr E := inv E; try apply ids_rel_refl; auto; try (eapply ids_rel_trans; [eassumption|]); auto using notified_rel, fix_chain_rel;
+  try (destruct (notify_on _); [apply fix_chain_rel | apply ids_rel_refl]).
+
+Lemma exec_rel : forall q sc st ps tid tk pa tpth tfl its ro st' out,
+  WFI st -> get_at st ps = Some (Node tid tk pa tpth tfl its) -> kind_ok tk ro = true -> op_ok ro ->
+  exec q sc st ps tid tk tpth tfl its ro = (st', out) -> ids_rel st st'.
+Proof.
+  intros q sc st ps tid tk pa tpth tfl its ro st' out WI G K OK E.
+  pose proof WI as (W & I).
+  destruct ro; simpl in K, OK, E;
+    try (destruct tk; try discriminate; []);
+    try (destruct (treats_as_sealed sc tfl); [inv E; apply ids_rel_refl; fail|]).
+  - (* LSet *)
+    destruct (negb (writable_via_accessors sc tfl)); [finr E|].
+    destruct ((i <? - zlen its) || (i >=? zlen its)); [finr E|].
+    destruct (lprim q sc st ps (KI i) v) as [st1 p] eqn:L. pose proof (lprim_ids _ _ _ _ _ _ _ _ WI OK L).
+    destruct p; finr E.
+  - (* LDel *)
+    destruct (negb (writable_via_accessors sc tfl)); [finr E|].
+    destruct ((i <? - zlen its) || (i >=? zlen its)); [finr E|].
+    destruct (ldel_core sc st ps _) as [st1 r] eqn:L. inv E. eapply ldel_core_rel; eauto.
+  - (* LAppend *)
+    destruct (lprim q sc st ps (KI (zlen its)) v) as [st1 p] eqn:L. pose proof (lprim_ids _ _ _ _ _ _ _ _ WI OK L).
+    destruct p; finr E.
+  - (* LInsert *)
+    destruct (lprim q sc st ps (KI i) (RIns v)) as [st1 p] eqn:L.
+    assert (rv_ok (RIns v)) by (simpl; auto). pose proof (lprim_ids _ _ _ _ _ _ _ _ WI H L).
+    destruct p; finr E.
+  - (* LExtend *) eapply extend_core_rel; eauto.
+  - (* LPop *)
+    destruct ((_ <? - zlen its) || (_ >=? zlen its)); [finr E|].
+    destruct (treats_as_sealed sc tfl); [finr E|].
+    destruct (ldel_core sc st ps _) as [st1 r] eqn:L. inv E. eapply ldel_core_rel; eauto.
+  - (* LRemove *)
+    destruct (find_index _ its); [|finr E].
+    destruct (treats_as_sealed sc tfl); [finr E|].
+    destruct (negb (writable_via_accessors sc tfl)); [finr E|].
+    destruct (ldel_core sc st ps n) as [st1 r] eqn:L. inv E. eapply ldel_core_rel; eauto.
+  - (* LClear *) inv E. eapply clear_core_rel; eauto.
+  - (* LReverse *) inv E. eapply reorder_core_rel; eauto. apply perm_rev.
+  - (* LSort *) inv E. eapply reorder_core_rel; eauto. apply perm_sorted.
+  - (* LIAdd *) eapply extend_core_rel; eauto.
+  - (* LIMul *)
+    destruct (n <=? 0).
+    + inv E. eapply clear_core_rel; eauto.
+    + eapply extend_core_rel; [exact WI | apply repeat_list_forall, rv_of_item_ok | exact E].
+  - (* LAdd *)
+    destruct (treats_as_sealed sc default_flags); [finr E|].
+    destruct (container_facts _ _ _ _ _ _ _ _ W G) as (Ept & KO & F).
+    destruct (new_list_from q st its) as [c st1] eqn:NL.
+    destruct (new_list_from_wfs _ _ _ _ _ _ _ W F NL) as (W1 & N1 & Wc).
+    pose proof (new_list_from_rel _ _ _ _ _ NL) as R1.
+    assert (WI1 : WFI (add_root st1 c)) by (eapply WFI_step; eauto using wfs_add_root).
+    destruct (extend_core q sc (add_root st1 c) (length (roots st1), []) vs) as [st2 o2] eqn:X.
+    pose proof (extend_core_rel _ _ _ _ _ _ _ WI1 OK X) as R2.
+    assert (ids_rel st st2) by (eapply ids_rel_trans; eauto).
+    destruct o2; inv E; auto.
+  - (* LMul *)
+    destruct ((n >=? 1) && treats_as_sealed sc default_flags); [finr E|].
+    destruct (new_list_from q st []) as [c st1] eqn:NL.
+    destruct (new_list_from_wfs q st [] c st1 tid (snd ps) W (Forall_nil _) NL) as (W1 & N1 & Wc).
+    pose proof (new_list_from_rel _ _ _ _ _ NL) as R1.
+    assert (WI1 : WFI (add_root st1 c)) by (eapply WFI_step; eauto using wfs_add_root).
+    destruct (extend_loop q sc (add_root st1 c) (length (roots st1), []) _ false) as [[st2 u] e] eqn:X.
+    assert (R2 : ids_rel (add_root st1 c) st2).
+    { eapply extend_loop_rel; [exact WI1 | | exact X]. apply repeat_list_forall, rv_of_item_ok. }
+    assert (ids_rel st st2) by (eapply ids_rel_trans; eauto).
+    destruct e; inv E; auto.
+  - (* LCopy *)
+    destruct (new_list_from q st its) as [c st1] eqn:NL. inv E. eapply new_list_from_rel; eauto.
+  - (* DSet *)
+    destruct (negb (writable_via_accessors sc tfl)); [finr E|].
+    destruct (dprim q sc st ps k v) as [st1 p] eqn:L. pose proof (dprim_ids _ _ _ _ _ _ _ _ WI OK L).
+    destruct p; finr E.
+  - (* DDel *)
+    destruct (negb (writable_via_accessors sc tfl)); [finr E|].
+    destruct (negb (has_key k its)); [finr E|].
+    destruct (dprim q sc st ps k (RLeaf LMissing)) as [st1 p] eqn:L.
+    assert (rv_ok (RLeaf LMissing)) by (simpl; auto). pose proof (dprim_ids _ _ _ _ _ _ _ _ WI H L).
+    destruct p; finr E.
+  - (* DPop *)
+    destruct (assoc k its); [|destruct d; finr E].
+    destruct (treats_as_sealed sc tfl); [finr E|].
+    destruct (dprim q sc st ps k (RLeaf LMissing)) as [st1 p] eqn:L.
+    assert (rv_ok (RLeaf LMissing)) by (simpl; auto). pose proof (dprim_ids _ _ _ _ _ _ _ _ WI H L).
+    destruct p; finr E.
+  - (* DPopItem *)
+    destruct (rev its) as [|[k old] r] eqn:R; [finr E|]. inv E.
+    assert (R1 : ids_rel st (add_detached (update_at st ps (set_items (removelast its))) old)).
+    { eapply detached_rel; try rewrite next_update_at; try lia; try constructor.
+      apply (replace_items_ids st st ps tid KDict pa tpth tfl its _ (Leaf LNone) [] (ids old) G eq_refl).
+      - simpl. auto.
+      - simpl. rewrite app_nil_r. eapply perm_removelast; eauto. }
+    destruct (notify_on sc); auto. eapply ids_rel_trans; [exact R1|apply fix_chain_rel].
+  - (* DClear *) inv E. eapply clear_core_rel; eauto.
+  - (* DSetDefault *)
+    assert (X : forall st1 p, dprim q sc st ps k v = (st1, p) -> ids_rel st st1) by (intros; eapply dprim_ids; eauto).
+    destruct (assoc k its) as [old|].
+    + destruct (is_missing old); [|finr E].
+      destruct (treats_as_sealed sc tfl); [finr E|].
+      destruct (negb (writable_via_accessors sc tfl)); [finr E|].
+      destruct (dprim q sc st ps k v) as [st1 p] eqn:L. specialize (X _ _ eq_refl).
+      destruct p; finr E.
+    + destruct (treats_as_sealed sc tfl); [finr E|].
+      destruct (negb (writable_via_accessors sc tfl)); [finr E|].
+      destruct (dprim q sc st ps k v) as [st1 p] eqn:L. specialize (X _ _ eq_refl).
+      destruct p; finr E.
+  - (* DUpdate *)
+    eapply rebind_core_rel; [exact WI| |exact E]. apply Forall_map. simpl. auto.
+  - (* DIOr *)
+    eapply rebind_core_rel; [exact WI| |exact E]. apply Forall_map. simpl. auto.
+  - (* DCopy *)
+    destruct (clone_at _ false None [] _ _) as [c cs] eqn:C. inv E. eapply clone_root_rel; eauto.
+  - (* OSet *)
+    destruct (negb (existsb (key_eqb k) (class_fields cls))); [finr E|].
+    destruct (treats_as_sealed sc tfl); [finr E|].
+    destruct (negb (writable_via_accessors sc tfl)); [finr E|].
+    destruct (oprim q sc st ps k v) as [st1 p] eqn:L. pose proof (oprim_ids _ _ _ _ _ _ _ _ WI OK L).
+    destruct p; finr E.
+  - (* Rebind *)
+    destruct pvs; [finr E|].
+    destruct (match tk with KObj _ => treats_as_sealed sc tfl | _ => false end); [finr E|].
+    eapply rebind_core_rel; eauto.
+  - (* Clone *)
+    destruct (clone_at _ _ None [] _ _) as [c cs] eqn:C. inv E. eapply clone_root_rel; eauto.
+  - (* Seal *)
+    inv E. apply ids_rel_same. apply next_update_at. apply all_ids_update_at_same. apply ids_seal_rec.
+  - (* SetAW *)
+    inv E. apply ids_rel_same. apply next_update_at. apply all_ids_update_at_same. apply ids_set_flags.
+Qed.
+
+Theorem step_rel : forall q st o, WFI st -> ids_rel st (fst (step q st o)).
+Proof.
+  intros. unfold step.
+  destruct (get_at st (o_pos o)) as [[|tid tk pa pt fl its]|] eqn:G; try apply ids_rel_refl.
+  destruct (kind_ok tk (o_op o)) eqn:K; try apply ids_rel_refl.
+  destruct (resolve_op st (o_op o)) as [ro|] eqn:R; try apply ids_rel_refl.
+  destruct (exec q (o_scope o) st (o_pos o) tid tk pt fl its ro) as [st' out] eqn:E. simpl.
+  eapply ids_rel_trans; [|apply gc_rel].
+  eapply exec_rel; eauto.
+  - destruct (o_op o); simpl in *;
+      repeat match goal with
+             | H : option_map _ ?x = Some _ |- _ => destruct x eqn:?; simpl in H; [|discriminate]
+             end; inv R; auto.
+  - eapply resolve_op_ok; eauto.
+Qed.
+Theorem step_WFI : forall q st o, WFI st -> WFI (fst (step q st o)).
+Proof. intros. eapply WFI_step; eauto. destruct H. apply step_wfs; auto. apply step_rel; auto. Qed.
+Theorem run_ops_WFI : forall q ops st, WFI st -> WFI (run_ops q st ops).
+Proof. unfold run_ops. induction ops; simpl; intros; auto. apply IHops. apply step_WFI; auto. Qed.
+
+Lemma init_forest_WFI : forall ls st, WFI st -> forallb lit_valid ls = true -> WFI (init_forest ls st).
+Proof.
+  induction ls; simpl; intros; auto. apply andb_true_iff in H0. destruct H0.
+  destruct a; auto.
+  pose proof (build_ids (LitNode k fl plain items) false None [] (next_id st)) as B.
+  destruct (build false None [] (LitNode k fl plain items) (next_id st)) as [n nx] eqn:BE.
+  apply IHls; auto. destruct B as (L & R & N). simpl in *.
+  eapply WFI_step; eauto.
+  - destruct H. apply wfs_add_root; auto.
+    + replace n with (fst (build false None [] (LitNode k fl plain items) (next_id st))) by (rewrite BE; auto).
+      apply build_is_node.
+    + replace n with (fst (build false None [] (LitNode k fl plain items) (next_id st))) by (rewrite BE; auto).
+      apply build_wf; auto.
+  - split; auto. exists (ids n), []. rewrite app_nil_r. repeat split; auto.
+    rewrite all_ids_add_root. auto.
+Qed.
+Lemma empty_WFI : WFI empty_state.
+Proof. split. constructor. split; constructor. Qed.
+Theorem history_WFI : forall q ls ops, forallb lit_valid ls = true -> WFI (run_ops q (init_forest ls empty_state) ops).
+Proof. intros. apply run_ops_WFI. apply init_forest_WFI; auto. apply empty_WFI. Qed.
+
+(* In the words of the property: one node object never appears in two places *)
+Theorem no_node_twice : forall st r1 p1 r2 p2 i k1 pa1 pt1 fl1 its1 k2 pa2 pt2 fl2 its2,
+  WFI st ->
+  get_at st (r1, p1) = Some (Node i k1 pa1 pt1 fl1 its1) -> get_at st (r2, p2) = Some (Node i k2 pa2 pt2 fl2 its2) ->
+  r1 = r2 /\ p1 = p2.
+Proof.
+  intros. destruct H as (W & ND & _).
+  assert (r1 = r2) by (eapply same_id_same_root; eauto). subst r2. split; auto.
+  (* within one tree: distinct positions hold distinct ids *)
+  unfold get_at, get_root in *. simpl in *.
+  destruct (nth_error (roots st) r1) as [[t|]|] eqn:NE; try discriminate.
+  assert (NT : NoDup (ids t)).
+  { unfold all_ids in ND. clear - ND NE. revert r1 NE. induction (roots st); intros; destruct r1; simpl in *; try discriminate.
+    - inv NE. simpl in ND. apply nodup_app_inv in ND. tauto.
+    - apply nodup_app_inv in ND. destruct ND as (_ & ND & _). eauto. }
+  clear - NT H0 H1. revert t p2 NT H0 H1. induction p1; intros.
+  - simpl in H0. inv H0. destruct p2; auto. simpl in H1.
+    destruct (assoc k its1) as [c|] eqn:A; [|discriminate].
+    exfalso. simpl in NT. inv NT. apply H2.
+    destruct (assoc_in _ _ _ _ A) as (k' & _ & I). apply in_flat_map. exists (k', c). split; auto.
+    simpl. eapply get_in_ids; eauto.
+  - destruct t as [l|j kd pa0 pt0 fl0 its0]; simpl in H0; [discriminate|].
+    destruct (assoc a its0) as [c|] eqn:A; [|discriminate].
+    destruct p2 as [|b p2'].
+    + simpl in H1. inv H1. exfalso. simpl in NT. inv NT. apply H2.
+      destruct (assoc_in _ _ _ _ A) as (k' & _ & I). apply in_flat_map. exists (k', c). split; auto.
+      simpl. eapply get_in_ids; eauto.
+    + simpl in H1. destruct (assoc b its0) as [c'|] eqn:B; [|discriminate].
+      simpl in NT. inv NT. fold (ids_items its0) in *.
+      destruct (key_eqb a b) eqn:EK.
+      * apply key_eqb_eq in EK. subst b. rewrite A in B. inv B. f_equal.
+        eapply IHp1; eauto.
+        destruct (assoc_in _ _ _ _ A) as (k' & _ & I). clear - H4 I.
+        unfold ids_items in H4. induction its0; simpl in *; [tauto|]. apply nodup_app_inv in H4. destruct H4 as (N1 & N2 & _).
+        destruct I; subst; auto.
+      * (* two different children both hold the id *)
+        exfalso. apply key_eqb_neq in EK.
+        assert (Ia : In i (ids c)) by (eapply get_in_ids; eauto).
+        assert (Ib : In i (ids c')) by (eapply get_in_ids; eauto).
+        clear - A B EK Ia Ib H4. unfold ids_items in H4.
+        induction its0 as [|[k0 c0] r IH]; simpl in *; [discriminate|].
+        apply nodup_app_inv in H4. destruct H4 as (N1 & N2 & D).
+        destruct (key_eqb a k0) eqn:E1; destruct (key_eqb b k0) eqn:E2.
+        -- apply key_eqb_eq in E1; apply key_eqb_eq in E2; congruence.
+        -- inv A. eapply D; eauto. destruct (assoc_in _ _ _ _ B) as (k' & _ & I). apply in_flat_map. exists (k', c'); auto.
+        -- inv B. eapply D; eauto. destruct (assoc_in _ _ _ _ A) as (k' & _ & I). apply in_flat_map. exists (k', c); auto.
+        -- eauto.
+Qed.
+
+Lemma WF_WFI : forall st, WF st <-> WFI st.
+Proof. intros. unfold WF, WFI, wfs, IDS. split; intros H; tauto. Qed.
+Theorem step_WF : forall q st o, WF st -> WF (fst (step q st o)).
+Proof. intros. apply WF_WFI. apply step_WFI. apply WF_WFI. exact H. Qed.
+Theorem history_WF : forall q ls ops, forallb lit_valid ls = true -> WF (run_ops q (init_forest ls empty_state) ops).
+Proof. intros. apply WF_WFI. apply history_WFI. exact H. Qed.
+Theorem no_node_twice_WF : forall st r1 p1 r2 p2 i k1 pa1 pt1 fl1 its1 k2 pa2 pt2 fl2 its2,
+  WF st ->
+  get_at st (r1, p1) = Some (Node i k1 pa1 pt1 fl1 its1) -> get_at st (r2, p2) = Some (Node i k2 pa2 pt2 fl2 its2) ->
+  r1 = r2 /\ p1 = p2.
+Proof. intros. eapply no_node_twice; [apply WF_WFI; exact H | exact H0 | exact H1]. Qed.
